@@ -584,6 +584,8 @@ func TestVerifC10(t *testing.T) {
 			}
 			if !res.Res.Complete && len(res.Viol) == 0 {
 				skipped++
+			} else if !res.Res.Complete {
+				r.Cap("exploration of violating cases stopped after 5 violating executions each")
 			}
 			if res.Harness != "" {
 				harness = append(harness, c.String()+": "+res.Harness)
